@@ -7,6 +7,7 @@ import (
 	"fmt"
 	"os"
 	"runtime"
+	"strings"
 	"unicode/utf8"
 
 	"github.com/cockroachdb/redact/internal/buffer"
@@ -120,6 +121,19 @@ func runBufHistory(h []BOp, variant int) (st lib.BufState, out []byte, acc accRe
 			live string
 			copy string
 		}
+		type keptBytes struct {
+			at   int
+			live []byte
+			copy []byte
+		}
+		var keepB []keptBytes
+		defer func() {
+			for _, k := range keepB {
+				if !bytes.Equal(k.live, k.copy) {
+					accImpure = fmt.Sprintf("the byte slice obtained from Take at op %d changed from %q to %q by later operations", k.at, k.copy, k.live)
+				}
+			}
+		}()
 		var earlier []kept
 		keep := func(i int, s string) { earlier = append(earlier, kept{i, s, string(append([]byte(nil), s...))}) }
 		defer func() {
@@ -142,6 +156,11 @@ func runBufHistory(h []BOp, variant int) (st lib.BufState, out []byte, acc accRe
 				taken, isTake = []byte(s), true
 			} else {
 				taken, isTake = applyBOp(&b, o, variant)
+				if isTake {
+					// TakeRedactableBytes: the very slice (it may alias retained storage) and a private copy
+					keepB = append(keepB, keptBytes{i, taken, append([]byte(nil), taken...)})
+					taken = append([]byte(nil), taken...)
+				}
 			}
 			if isTake && !bytes.Equal(taken, before) {
 				accImpure = fmt.Sprintf("op %d: Take returned %q but RedactableString said %q", i, taken, before)
@@ -250,6 +269,10 @@ func judgeBuffer(rep *lib.Report, prop string, h []BOp, variant int, st lib.BufS
 				rep.Violate("buffer:visible", fmt.Sprintf("visible text %q, payload history says %q", got, dd), kase)
 			}
 		}
+	}
+	if accImpure != "" && strings.Contains(accImpure, "changed from") && (is("C01") || is("C02") || is("C03") || is("C09") || is("C12")) {
+		// a produced string that changes afterwards is not the string the property speaks of any more
+		rep.Violate("buffer:result-mutated", accImpure, kase)
 	}
 	if is("C13") {
 		if accImpure != "" {
